@@ -35,12 +35,29 @@ func LitPool() []string {
 	return out
 }
 
+// HostileLits: characters with a meaning in some layer of the output.
+var HostileLits = []string{"%", "\"", "'", "`", "|", "{", "}", "<", ">", ",", "*", "/", "$", "#", "&", ";", ":"}
+
 // WithNames renames terminals and nonterminals from the pools and replaces
 // literals by random printable characters.
 func WithNames(t *rapid.T, s *Spec) {
 	tp := rapid.Permutation(TermNamePool).Draw(t, "tnames")
 	np := rapid.Permutation(NTNamePool).Draw(t, "nnames")
 	lp := rapid.Permutation(LitPool()).Draw(t, "lits")
+	if rapid.Bool().Draw(t, "hostile") {
+		// characters that are special in Go/TS string literals, Printf
+		// formats, comments or DOT record labels come first
+		lp = append(rapid.Permutation(HostileLits).Draw(t, "hostilelits"), lp...)
+		seen := map[string]bool{}
+		var u []string
+		for _, x := range lp {
+			if !seen[x] {
+				seen[x] = true
+				u = append(u, x)
+			}
+		}
+		lp = u
+	}
 	li, ti := 0, 0
 	for i := range s.Terms {
 		if s.Terms[i].IsLit() {
